@@ -158,6 +158,9 @@ struct SendPlan {
     conn: usize, // 0 = A, 1 = B, 2 = pause (bytes = milliseconds in ASCII)
     bytes: Vec<u8>,
     completes: usize,
+    /// a read-only probe of the harness (exact value fingerprint): executed on the implementation, not
+    /// shown to the model, whose mini backend does not have these commands
+    oracle_only: bool,
 }
 
 /// feed the writes one at a time: the next one is sent only when the handler that got the previous
@@ -264,7 +267,7 @@ fn run_executor(sends: &[SendPlan]) -> Ran {
 
 /// one write per command
 fn singles(steps: &[(usize, Vec<u8>)]) -> Vec<SendPlan> {
-    steps.iter().map(|s| SendPlan { conn: s.0, bytes: s.1.clone(), completes: if s.0 == 2 { 0 } else { 1 } }).collect()
+    steps.iter().map(|s| SendPlan { conn: s.0, bytes: s.1.clone(), completes: if s.0 == 2 { 0 } else { 1 }, oracle_only: false }).collect()
 }
 /// split what the writes were answered with into one reply per command; None = some write was
 /// answered with a different number of replies than commands it completed
@@ -366,6 +369,41 @@ fn probes(k: &[u8]) -> Vec<Vec<u8>> {
     ]
 }
 
+/// exact, type-specific reads of k (positions 7.. of a fingerprint): every change of a value shows in
+/// one of the ten probes - sorted-set scores, the value of an existing hash field, set members
+fn exact_probes(k: &[u8]) -> Vec<Vec<u8>> {
+    vec![enc(&[b"ZRANGE", k, b"0", b"-1", b"WITHSCORES"]), enc(&[b"HGETALL", k]), enc(&[b"SMEMBERS", k])]
+}
+/// HGETALL / SMEMBERS answer in per-process hash order: sort the pairs / members
+fn canon_reply(frame: &[u8], reply: &[u8]) -> Vec<u8> {
+    let pairs = frame.starts_with(b"*2\r\n$7\r\nHGETALL\r\n");
+    let members = frame.starts_with(b"*2\r\n$8\r\nSMEMBERS\r\n");
+    if !(pairs || members) {
+        return reply.to_vec();
+    }
+    match array_elems(reply) {
+        None => reply.to_vec(),
+        Some(el) => {
+            let mut groups: Vec<Vec<u8>> = if pairs { el.chunks(2).map(|c| c.concat()).collect() } else { el };
+            groups.sort();
+            let mut v = format!("*{}\r\n", if pairs { groups.len() * 2 } else { groups.len() }).into_bytes();
+            for g in groups {
+                v.extend_from_slice(&g);
+            }
+            v
+        }
+    }
+}
+/// all probes of key i with the given role constructor: the seven the model also answers, then the exact ones
+fn push_probes(steps: &mut Vec<Step>, keys: &[Vec<u8>], i: usize, role: &dyn Fn(usize, usize) -> Role, label: &str) {
+    for (j, p) in probes(&keys[i]).into_iter().enumerate() {
+        steps.push((1, p, role(i, j), label.into()));
+    }
+    for (j, p) in exact_probes(&keys[i]).into_iter().enumerate() {
+        steps.push((1, p, role(i, 7 + j), "exact".into()));
+    }
+}
+
 #[derive(Clone, PartialEq, Debug)]
 enum Role {
     Setup,
@@ -393,7 +431,7 @@ type Step = (usize, Vec<u8>, Role, String);
 /// commands pushed since the last call travel one per write
 fn flush_singles(sends: &mut Vec<SendPlan>, steps: &[Step], covered: &mut usize) {
     for s in &steps[*covered..] {
-        sends.push(SendPlan { conn: s.0, bytes: s.1.clone(), completes: if s.0 == 2 { 0 } else { 1 } });
+        sends.push(SendPlan { conn: s.0, bytes: s.1.clone(), completes: if s.0 == 2 { 0 } else { 1 }, oracle_only: s.3 == "exact" });
     }
     *covered = steps.len();
 }
@@ -429,7 +467,7 @@ fn push_pipelined(steps: &mut Vec<Step>, sends: &mut Vec<SendPlan>, covered: &mu
         if c - prev >= 60 {
             out.count("pipelined:chunk_of_60_bytes_or_more");
         }
-        sends.push(SendPlan { conn: 0, bytes: total[prev..c].to_vec(), completes });
+        sends.push(SendPlan { conn: 0, bytes: total[prev..c].to_vec(), completes, oracle_only: false });
         *covered = steps.len();
         prev = c;
         if c != l && rng.gen_bool(0.6) {
@@ -517,9 +555,7 @@ fn gen_scenario(keys: &[Vec<u8>], rng: &mut Rng, out: &mut Out) -> Scenario {
                 out.count("watch:key_repeated_in_one_watch");
             }
             for &i in &distinct {
-                for (j, p) in probes(&keys[i]).into_iter().enumerate() {
-                    steps.push((1, p, Role::ProbeW(i, j), "probe".into()));
-                }
+                push_probes(&mut steps, keys, i, &|i, j| Role::ProbeW(i, j), "probe");
             }
             let mut args: Vec<&[u8]> = vec![b"WATCH"];
             for &i in &ks {
@@ -554,17 +590,13 @@ fn gen_scenario(keys: &[Vec<u8>], rng: &mut Rng, out: &mut Out) -> Scenario {
         let mut region: Vec<(Vec<u8>, Role, String)> = Vec::new();
         let probe_e = |steps: &mut Vec<Step>| {
             for i in 0..nk {
-                for (j, p) in probes(&keys[i]).into_iter().enumerate() {
-                    steps.push((1, p, Role::ProbeE(i, j), "probe".into()));
-                }
+                push_probes(steps, keys, i, &|i, j| Role::ProbeE(i, j), "probe");
             }
         };
         if pipe == 3 {
             // nobody writes once the pipelined block has started: the EXEC-time fingerprints are taken now
             let kx = if !watched.is_empty() && rng.gen_bool(0.5) { *watched.choose(rng).unwrap() } else { rng.gen_range(0..nk) };
-            for (j, p) in probes(&keys[kx]).into_iter().enumerate() {
-                steps.push((1, p, Role::ProbeW(kx, j), "probe".into()));
-            }
+            push_probes(&mut steps, keys, kx, &|i, j| Role::ProbeW(i, j), "probe");
             probe_e(&mut steps);
             region.push((enc(&[b"WATCH", &keys[kx]]), Role::Watch(vec![kx]), "watch".into()));
             if !watched.contains(&kx) {
@@ -659,9 +691,7 @@ fn gen_scenario(keys: &[Vec<u8>], rng: &mut Rng, out: &mut Out) -> Scenario {
             steps.push(fin);
         }
         if ttl_quiet {
-            for (j, p) in probes(&keys[0]).into_iter().enumerate() {
-                steps.push((1, p, Role::ProbeE(0, j), "probe-after-exec".into()));
-            }
+            push_probes(&mut steps, keys, 0, &|i, j| Role::ProbeE(i, j), "probe-after-exec");
         }
         if rng.gen_bool(0.3) {
             let k = keys.choose(rng).unwrap();
@@ -670,9 +700,7 @@ fn gen_scenario(keys: &[Vec<u8>], rng: &mut Rng, out: &mut Out) -> Scenario {
         }
     }
     for i in 0..nk {
-        for (j, p) in probes(&keys[i]).into_iter().enumerate() {
-            steps.push((1, p, Role::Dump(i, j), "dump".into()));
-        }
+        push_probes(&mut steps, keys, i, &|i, j| Role::Dump(i, j), "dump");
     }
     flush_singles(&mut sends, &steps, &mut covered);
     Scenario { executor_level: false, steps, sends }
@@ -744,9 +772,7 @@ fn gen_exec_scenario(keys: &[Vec<u8>], rng: &mut Rng, out: &mut Out) -> Scenario
             distinct.sort();
             distinct.dedup();
             for &i in &distinct {
-                for (j, p) in probes(&keys[i]).into_iter().enumerate() {
-                    steps.push((1, p, Role::ProbeW(i, j), "probe".into()));
-                }
+                push_probes(&mut steps, keys, i, &|i, j| Role::ProbeW(i, j), "probe");
             }
             let mut args: Vec<&[u8]> = vec![b"WATCH"];
             for &i in &ks {
@@ -778,9 +804,7 @@ fn gen_exec_scenario(keys: &[Vec<u8>], rng: &mut Rng, out: &mut Out) -> Scenario
         // nothing but time can change between MULTI and EXEC (every command is queued): the EXEC-time
         // fingerprints are taken now; the deadline key's fingerprint is taken right after EXEC
         for i in (if ttl { 1 } else { 0 })..nk {
-            for (j, p) in probes(&keys[i]).into_iter().enumerate() {
-                steps.push((1, p, Role::ProbeE(i, j), "probe".into()));
-            }
+            push_probes(&mut steps, keys, i, &|i, j| Role::ProbeE(i, j), "probe");
         }
         steps.push((0, enc(&[b"MULTI"]), Role::Multi, "multi".into()));
         let nb = rng.gen_range(0..6);
@@ -821,9 +845,7 @@ fn gen_exec_scenario(keys: &[Vec<u8>], rng: &mut Rng, out: &mut Out) -> Scenario
             steps.push((0, enc(&[b"EXEC"]), Role::Exec, "exec".into()));
         }
         if ttl {
-            for (j, p) in probes(&keys[0]).into_iter().enumerate() {
-                steps.push((1, p, Role::ProbeE(0, j), "probe-after-exec".into()));
-            }
+            push_probes(&mut steps, keys, 0, &|i, j| Role::ProbeE(i, j), "probe-after-exec");
         }
         if rng.gen_bool(0.3) {
             let k = keys.choose(rng).unwrap();
@@ -832,9 +854,7 @@ fn gen_exec_scenario(keys: &[Vec<u8>], rng: &mut Rng, out: &mut Out) -> Scenario
         }
     }
     for i in 0..nk {
-        for (j, p) in probes(&keys[i]).into_iter().enumerate() {
-            steps.push((1, p, Role::Dump(i, j), "dump".into()));
-        }
+        push_probes(&mut steps, keys, i, &|i, j| Role::Dump(i, j), "dump");
     }
     let mut sends = Vec::new();
     let mut covered = 0;
@@ -892,12 +912,12 @@ fn main() {
             tbl.len() - 1
         };
         // (1, i) = A writes tbl[i]; (0, i) = B writes tbl[i]; (2, ms) = a pause
-        let step_ix: Vec<(usize, usize)> = sc.sends.iter().map(|sp| if sp.conn == 2 { (2, std::str::from_utf8(&sp.bytes).unwrap().parse().unwrap()) } else { (if sp.conn == 0 { 1 } else { 0 }, ix(&sp.bytes, &mut tbl)) }).collect();
-        let reply_ix: Vec<usize> = answered.iter().map(|r| ix(r, &mut tbl)).collect();
+        let step_ix: Vec<(usize, usize)> = sc.sends.iter().filter(|sp| !sp.oracle_only).map(|sp| if sp.conn == 2 { (2, std::str::from_utf8(&sp.bytes).unwrap().parse().unwrap()) } else { (if sp.conn == 0 { 1 } else { 0 }, ix(&sp.bytes, &mut tbl)) }).collect();
+        let reply_ix: Vec<usize> = sc.sends.iter().zip(answered.iter()).filter(|(sp, _)| !sp.oracle_only).map(|(_, r)| ix(r, &mut tbl)).collect();
         let term = format!("({} {} {} {} false)", if xl { "KXTx" } else { "KTx" }, clist(tbl.iter(), |b| chex(b)), clist(step_ix.iter(), |s| format!("({}, {})", s.0, s.1)), clist(reply_ix.iter(), |r| r.to_string()));
         let canon = format!("{}{}", shards, sc.sends.iter().zip(answered.iter()).map(|(s, r)| format!("{}{}{}", s.conn, hex(&s.bytes), hex(r))).collect::<String>());
         let replies = match per_command(&sc.sends, &answered) {
-            Some(r) => r,
+            Some(r) => r.iter().zip(sc.steps.iter()).map(|(r, st)| canon_reply(&st.1, r)).collect::<Vec<_>>(),
             None => {
                 let w: Vec<String> = sc.sends.iter().zip(answered.iter()).filter(|(sp, _)| sp.conn == 0).map(|(sp, a)| format!("A writes {:?} (completes {} commands) -> {:?}", String::from_utf8_lossy(&sp.bytes), sp.completes, String::from_utf8_lossy(a))).collect();
                 out.violation(i, "T1: a write was answered with a different number of replies than the commands it completes", json!({"writes_of_A": w}));
@@ -1089,6 +1109,7 @@ fn main() {
         let ndump = sc.steps.iter().filter(|s| matches!(s.2, Role::Dump(..))).count();
         match runner(&singles(&twin)) {
             Ran::Ok(tr) => {
+                let tr: Vec<Vec<u8>> = tr.iter().zip(twin.iter()).map(|(r, t)| canon_reply(&t.1, r)).collect();
                 out.impl_checks += 1;
                 for (idx, want) in &twin_expect {
                     if tr[*idx] != *want {
